@@ -390,6 +390,70 @@ class TooBig(Exception):
     """the pair is not run at all: a sequence repetition / power / shift that would need huge memory"""
 
 
+class _ProbeMissing:
+    """stands for a missing field while probing for huge intermediate values: absorbs every operation, so that the
+    probe goes on to the sub-expressions the (eager) interpreted engine would still evaluate"""
+
+    def __getattr__(self, k):
+        if k.startswith("__"):
+            raise AttributeError(k)
+        return self
+
+    def _f(self, *a):
+        return False
+
+    __add__ = __radd__ = __mul__ = __rmul__ = __mod__ = __rmod__ = __and__ = __rand__ = __or__ = __ror__ = _f
+    __sub__ = __rsub__ = __truediv__ = __rtruediv__ = __floordiv__ = __pow__ = __xor__ = __lshift__ = __rshift__ = _f
+    __eq__ = __ne__ = __lt__ = __le__ = __gt__ = __ge__ = __contains__ = _f
+    __hash__ = None
+
+    def __bool__(self):
+        return False
+
+    def __len__(self):
+        return 0
+
+    def __iter__(self):
+        return iter(())
+
+
+_PROBE_MISSING = _ProbeMissing()
+
+
+class _ProbeRecord:
+    def __init__(self, rec):
+        self._rec = rec
+
+    def __getattr__(self, k):
+        return getattr(self._rec, k, _PROBE_MISSING)
+
+
+def probe_too_big(tree, ns):
+    """True when some sub-expression would build a huge value.  (1) the whole expression, eagerly, with missing fields
+    absorbed; (2) every arithmetic node on its own, so that an exception in an earlier sibling cannot hide it."""
+    env = dict(ns)
+    env["r"] = _ProbeRecord(ns["r"])
+    try:
+        ref_eval(tree.body, env, "probe")
+    except TooBig:
+        return True
+    except RecursionError:
+        raise
+    except Exception:  # noqa
+        pass
+    for n in ast.walk(tree):
+        if isinstance(n, ast.BinOp):
+            try:
+                ref_eval(n, env, "probe")
+            except TooBig:
+                return True
+            except RecursionError:
+                raise
+            except Exception:  # noqa
+                pass
+    return False
+
+
 def _guard(op, a, b):
     if isinstance(op, ast.Mult):
         for x, y in ((a, b), (b, a)):
@@ -1216,16 +1280,17 @@ def run_pair(text, tree, r, sel_cache):
         sel_cache[text] = (Selector(text), CompiledSelector(text), compile(text, "<c07>", "eval"))
     s, c, code = sel_cache[text]
     ns = reference_namespace(r)
-    for mode in ("probe", False):
-        # "probe": eager like strict but nothing is Undefined -- only to find operations that would exhaust memory
-        try:
-            ref_eval(tree.body, ns, mode)
-        except TooBig:
-            return None
-        except RecursionError:
-            raise
-        except Exception:  # noqa
-            pass
+    # "probe": eager like strict but nothing is Undefined -- only to find operations that would exhaust memory
+    if probe_too_big(tree, ns):
+        return None
+    try:
+        ref_eval(tree.body, ns, False)
+    except TooBig:
+        return None
+    except RecursionError:
+        raise
+    except Exception:  # noqa
+        pass
     oi = outcome(lambda: s.match(rec))
     oc = outcome(lambda: c.match(rec))
     op = outcome(lambda: eval(code, dict(ns)))
